@@ -52,7 +52,7 @@ def _strategy(tier, var):
     cls, dim, dtype = var
 
     @st.composite
-    def case(draw):
+    def case0(draw):
         grid = draw(st.lists(st.integers(1, 5), min_size=dim, max_size=dim))
         if cls == "EulerianFieldIO":
             grid[-1] = max(grid[-1], 2)
@@ -88,9 +88,29 @@ def _strategy(tier, var):
         if cls == "CosseratRodIO":
             c["n_elems"] = draw(st.sampled_from([2, 3, 4, dim, 9]))
             c["rod_key"] = draw(gen.block_keys)
+        # the precision of the registered arrays is independent of the IO object's real_dtype (a single-precision flow
+        # simulation stores double-precision PyElastica data through the same IO classes)
+        c["array_dtype"] = draw(st.sampled_from([dtype, dtype, "float32" if dtype == "float64" else "float64"]))
         c["reject"] = draw(st.sampled_from(["delete_dataset", "origin", "dx", "grid_size"]))
         c["reject_pick"] = draw(st.integers(0, 50))
         c["perturb"] = draw(gen.floats(1e-3, 0.5, 32))
+        return c
+
+    @st.composite
+    def case(draw):
+        c = draw(case0())
+        if c["array_dtype"] != dtype and cls == "IO":
+            # contents are drawn as bit patterns of the ARRAY precision
+            def redraw(n):
+                return draw(_bits(c["array_dtype"], n))
+            for e in c["eul"]:
+                e["bits"] = redraw(len(e["bits"]))
+            for g in c["lag"]:
+                g["grid_bits"] = redraw(len(g["grid_bits"]))
+                for fl in g["fields"]:
+                    fl["bits"] = redraw(len(fl["bits"]))
+        elif cls != "IO":
+            c["array_dtype"] = dtype
         return c
 
     return case()
@@ -111,13 +131,14 @@ def _build(case, fresh):
 
     cls, dim, dtype = case["cls"], case["dim"], case["dtype"]
     real_t = gen.np_dtype(dtype)
+    adt = case.get("array_dtype", dtype)
     grid = tuple(case["grid"])
     reg = {"eul": {}, "lag": []}
 
     def mk(bits, shape):
-        a = _arr(bits, shape, dtype)
+        a = _arr(bits, shape, adt)
         if fresh:
-            a = np.full(shape, 4242.0, dtype=real_t)
+            a = np.full(shape, 4242.0, dtype=gen.np_dtype(adt))
         return a
 
     if cls == "EulerianFieldIO":
@@ -277,11 +298,11 @@ def _body(case, ctx):
         _rejection(case, ctx, fname, tmp, gnames)
     finally:
         shutil.rmtree(tmp, ignore_errors=True)
-    special = SPECIAL32 if dtype == "float32" else SPECIAL64
+    special = SPECIAL32 if case.get("array_dtype", dtype) == "float32" else SPECIAL64
     allbits = [b for e in case["eul"] for b in e["bits"]] + [b for g in case["lag"] for fl in g["fields"] for b in fl["bits"]]
     has_special = any(b in special for b in allbits) or cls == "CosseratRodIO"
     has_vec = any(e["vector"] for e in case["eul"]) or any(fl["vector"] for g in case["lag"] for fl in g["fields"]) or cls == "CosseratRodIO"
-    labels = [f"{cls}_{dim}d_{dtype}"]
+    labels = [f"{cls}_{dim}d_{dtype}"] + (["arrays_of_other_precision"] if case.get("array_dtype", dtype) != dtype else [])
     if any(g["n"] == dim for g in case["lag"]):
         labels.append("N_equals_dim")
     if dup_across:
